@@ -20,6 +20,7 @@ def run(chk):
     r05d(chk, tt)
     r05e(chk, tt)
     r04c(chk, 'R05.f')
+    r05g(chk, tt)
 
 
 def r05a(chk, rid='R05.a'):
@@ -279,3 +280,38 @@ def r04c(chk, rid='R04.c'):
             child = n
             n = m.parents.get(n)
         chk.ob(rid, TOK, 'Tokenizer.tokenize', f'{label} only under fullsheet', guarded, 'fragments would be completed as if they were whole sheets')
+
+
+# the lexical macros of CSS 2.1 (appendix G) / css3-syntax, with the deviations
+# cssutils documents at the top of cssproductions.py (a sign is part of num; an
+# identifier may start with up to two hyphens)
+LEXICAL = {
+    'nonascii': r'[^\x00-\x7f]',
+    'nl': r'\n|\r\n|\r|\f',
+    's': r'[ \t\r\n\f]',
+    'w': r'[ \t\r\n\f]*',
+    'num': r'[+-]?(?:[0-9]*\.[0-9]+|[0-9]+)',
+    'unicode': r'\\[0-9a-fA-F]{1,6}(?:\r\n|[ \t\r\n\f])?',
+    'nmstart': r'[_a-zA-Z]|[^\x00-\x7f]|(?:\\[0-9a-fA-F]{1,6}(?:\r\n|[ \t\r\n\f])?|\\[^\n\r\f0-9a-f])',
+    'nmchar': r'[-_a-zA-Z0-9]|[^\x00-\x7f]|(?:\\[0-9a-fA-F]{1,6}(?:\r\n|[ \t\r\n\f])?|\\[^\n\r\f0-9a-f])',
+}
+
+
+def r05g(chk, tt, rid='R05.g'):
+    chk.rule(rid, 'the basic lexical macros denote the languages of the CSS grammar (decided by automata equivalence against patterns written in the checker): nonascii, nl, s, w, num (ASCII digits only, optional sign), unicode, nmstart, nmchar; NUMBER/PERCENTAGE/DIMENSION/HASH/IDENT are built from them')
+    for name, oracle in LEXICAL.items():
+        a = tt.macro_nfa(name)
+        b = rx.compile_nfa('(?:%s)' % oracle, tt.flags)
+        eq, w = rx.equivalent(a, b)
+        chk.ob(rid, PRODS, 'MACROS', f'macro {{{name}}} denotes the grammar\'s {name}', eq,
+               f'differs from the grammar on {w!r}: tokens are classified differently for such input (e.g. a non-ASCII digit becoming part of a NUMBER)')
+    prods = dict(tt.productions)
+    want = {'NUMBER': r'{num}', 'PERCENTAGE': r'{num}\%', 'DIMENSION': r'{num}{ident}', 'HASH': r'\#{name}', 'IDENT': r'{ident}', 'ATKEYWORD': r'@{ident}', 'S': r'{s}+', 'STRING': r'{string}', 'INVALID': r'{invalid}', 'COMMENT': r'{comment}'}
+    for k, v in want.items():
+        chk.ob(rid, PRODS, 'PRODUCTIONS', f'{k} = {v}', prods.get(k) == v, f'is {prods.get(k)!r}')
+    ident = rx.compile_nfa('(?:-{0,2}(?:%s)(?:%s)*)' % (LEXICAL['nmstart'], LEXICAL['nmchar']), tt.flags)
+    eq, w = rx.equivalent(tt.macro_nfa('ident'), ident)
+    chk.ob(rid, PRODS, 'MACROS', 'macro {ident} = up to two hyphens, nmstart, nmchar*', eq, f'differs on {w!r}')
+    name = rx.compile_nfa('(?:(?:%s)+)' % LEXICAL['nmchar'], tt.flags)
+    eq, w = rx.equivalent(tt.macro_nfa('name'), name)
+    chk.ob(rid, PRODS, 'MACROS', 'macro {name} = nmchar+', eq, f'differs on {w!r}')
